@@ -180,7 +180,7 @@ type runResult struct {
 	Err       string     `json:"err,omitempty"`
 }
 
-var traceEvents = map[string]bool{"Reset": true, "Submit": true, "IntroSegment": true, "Return": true, "Callback": true}
+var traceEvents = map[string]bool{"Reset": true, "Submit": true, "IntroSegment": true, "Return": true, "Callback": true, "PersistCommitted": true}
 
 func readEvents(path string) ([]sx.Event, error) {
 	f, err := os.Open(path)
@@ -279,6 +279,14 @@ func execute(c *core.Ctx, rs runSpec) (*runResult, error) {
 			r["safe"] = ev["safe"]
 		case "Submit":
 			r["b"], r["puts"], r["dels"] = num(ev["b"]), ev["puts"], ev["dels"]
+		case "IntroSegment":
+			r["b"] = num(ev["b"])
+			r["epoch"] = 0
+			if rt, ok := ev["root"].(map[string]any); ok {
+				r["epoch"] = num(rt["epoch"])
+			}
+		case "PersistCommitted":
+			r["epoch"] = num(ev["epoch"])
 		default:
 			r["b"] = num(ev["b"])
 		}
